@@ -17,7 +17,9 @@ def run(ctx, out):
     ok_commit = [P.status(result_code=0, amount=5), P.completion()]
     no_status_commit = [P.completion()]
     cases = []
-    pendings = [None, 0xffff, 17, 9999]                    # receipt reported by the pending query (None: field absent)
+    # receipt reported by the pending query (None: field absent); 11 and 12 are the receipt numbers the reservations of these
+    # histories were made under — the terminal may well report the very pre-authorisation that was just committed / cancelled
+    pendings = [None, 0xffff, 17, 9999, 11, 12]
     eods = [[P.completion()], [P.pr_abort(0xa0)], [P.pr_abort(0x6c)], [P.intermediate(), P.print_line("eod"), P.completion()]]
     codes = range(256)        # every abort code, in both tiers: the set of tolerated refusals must be exactly {A0}
     for c in codes:
@@ -75,7 +77,7 @@ def run(ctx, out):
     ops, impl = run_histories(ctx, out, cases, "idle clean-up")
     # explicit shape oracle on the implementation's traffic: end-of-day (06 50) never while another token is open
     out.rule = ("histories begin..commit/cancel over 1 and 2 tokens x outcome of the finishing exchange (completed, aborted, commit completed without status information) x dangling pre-authorisation reported by the pending query "
-                f"(absent, FFFF, 17, 9999) x reversal outcome x end-of-day outcome (completion, completion after intermediate packets, {len(list(codes))} abort codes incl. A0). The client must send exactly: finishing request, "
+                f"(absent, FFFF, 17, 9999, and the receipt numbers 11 / 12 of the transactions of the history itself) x reversal outcome x end-of-day outcome (completion, completion after intermediate packets, {len(list(codes))} abort codes incl. A0). The client must send exactly: finishing request, "
                 "pending query 06 23 FFFF, reversal 06 25 of the reported receipt, 06 50 — each only after the previous one succeeded, nothing of it while a token is open — and report A0 as success and any other refusal as error. "
                 "Two tokens open and the first finishing exchange refused with each of the 256 abort codes: no clean-up before the second token is finished. implementation = model = specification")
     out.samples = [ops[3][:500], {"op": ops[-1][:200], "impl": impl[-1][:300]}]
